@@ -83,7 +83,7 @@ func (e *Engine) concretize(fr *Frame, st *State, v ssa.Value, limit int) uint64
 		ct := e.tm.BV(c, t.w)
 		alts = append(alts, Alt{cond: e.tm.Eq(t, ct), v: ct})
 	}
-	panic(forkReq{target: v, alts: alts})
+	panic(forkReq{target: v, alts: alts, split: true})
 }
 
 // enumerate lists the feasible values of t under the path condition (up to limit).
@@ -114,12 +114,17 @@ func (e *Engine) enumerate(st *State, t *Term, limit int) []uint64 {
 
 func (e *Engine) enterBlock(fr *Frame, st *State, to *ssa.BasicBlock) {
 	from := fr.block
-	// loop accounting: a jump to a block with index <= current is a back edge
+	// loop accounting: an edge to a dominator is a back edge.  Iterations decided by concrete
+	// conditions only count against the step limit; iterations taken on a symbolic decision
+	// count against the unwinding limit.
 	if to.Dominates(from) {
 		if fr.loops == nil {
 			fr.loops = map[int]int{}
 		}
-		fr.loops[to.Index]++
+		if fr.symIter {
+			fr.loops[to.Index]++
+			fr.symIter = false
+		}
 		if fr.loops[to.Index] > e.cfg.MaxLoop {
 			e.rep.UnwindHits++
 			e.note("unwinding limit reached at " + fr.fn.String())
@@ -262,8 +267,8 @@ func (e *Engine) step(fr *Frame, st *State) stepResult {
 		}
 		lazy := !isLoopHeader(fr.block)
 		return stepResult{kind: stepBranch, branches: []branch{
-			{cond: c, lazy: lazy, apply: func(f *Frame, s *State) { e.enterBlock(f, s, tb) }},
-			{cond: tm.Not(c), lazy: lazy, apply: func(f *Frame, s *State) { e.enterBlock(f, s, fb) }},
+			{cond: c, lazy: lazy, apply: func(f *Frame, s *State) { f.symIter = !lazy; e.enterBlock(f, s, tb) }},
+			{cond: tm.Not(c), lazy: lazy, apply: func(f *Frame, s *State) { f.symIter = !lazy; e.enterBlock(f, s, fb) }},
 		}}
 	case *ssa.Return:
 		switch len(in.Results) {
@@ -678,6 +683,36 @@ func (e *Engine) sliceOp(fr *Frame, st *State, in *ssa.Slice) Value {
 			return nil
 		}
 		return e.index64(fr, v)
+	}
+	// case split: symbolic bounds on a short sequence of concrete length are concretised, so that
+	// every offset behind this point is concrete on the path
+	if lim := e.bound("slice_split", 64); lim > 0 {
+		var baseLen *Term
+		switch b := x.(type) {
+		case *StrV:
+			baseLen = b.len
+		case *SliceV:
+			if b.bytes {
+				baseLen = b.cap
+			}
+		}
+		if baseLen != nil {
+			if c, ok := baseLen.ConstVal(); ok && c <= uint64(lim) {
+				for _, bv := range []ssa.Value{in.Low, in.High} {
+					if bv == nil {
+						continue
+					}
+					if _, isConst := e.term(fr, bv).ConstVal(); !isConst {
+						if _, isLocal := fr.info.idx[bv]; isLocal {
+							// values above the length panic anyway; the panic obligation is decided first
+							t64 := e.index64(fr, bv)
+							e.panicObligation(st, tm.Ule(t64, baseLen), "slice-bounds", in)
+							e.concretize(fr, st, bv, lim+1)
+						}
+					}
+				}
+			}
+		}
 	}
 	lo, hi, mx := opt(in.Low), opt(in.High), opt(in.Max)
 	if lo == nil {
